@@ -1,8 +1,270 @@
-//! engine `gen` (stub: to be filled in)
-use crate::util::Tr;
-use serde_json::{json, Value};
+//! C19: the seeded workload generators (quizx::generate, quizx::random_graph) recorded build by build; TLC
+//! validates every returned object against the contracts of spec/Gen.tla (mc/Trace_Gen.tla).
+//!
+//!   --gens a,b,..   subset of random_circuit,hidden_shift,pauli_gadget,stab_state,surface_code (default: all)
+//!   --seeds N       seeds per parameter setting (base + 0 .. base + N-1, base derived from --seed)
+//!   --thorough      larger grids (8-qubit hidden shift, more weight ranges)
+//!
+//! One group = one generator x one parameter setting.  Every build is done twice with identical seed and
+//! parameters (a fresh builder, then the same builder re-seeded, for circuits also a second fresh builder);
+//! `again_equal` is the code's own equality (PartialEq on Circuit and the shift, abs() equality on graphs).
+//! For the first seed of every setting BOTH payloads are logged as separate build events (`keep`), so that
+//! TLC compares them itself.  Probabilities travel as integer percent, seeds stay below 2^31.
 
-#[allow(unused_variables)]
+use crate::absg::abs;
+use crate::circ::circ_json;
+use crate::util::{arg_flag, arg_num, arg_val, guarded, Tr};
+use quizx::circuit::Circuit;
+use quizx::random_graph::EquatorialStabilizerStateBuilder;
+use serde_json::{json, Value};
+use std::collections::BTreeMap;
+
+type Built = Result<(Value, Value, bool), String>;
+
+struct Ctx<'a> {
+    tr: &'a mut Tr,
+    builds: BTreeMap<String, usize>,
+    panics: usize,
+    unequal: usize,
+    pairs_logged: usize,
+    settings: usize,
+    gates: usize,
+}
+
+impl Ctx<'_> {
+    fn begin(&mut self, gen: &str, params: &Value) {
+        self.tr.group();
+        self.settings += 1;
+        self.tr.emit(json!({"k": "begin", "gen": gen, "params": params}));
+    }
+
+    /// one build (twice inside `f`); `keep`: log the second payload as an event of its own
+    fn build(&mut self, gen: &str, be: &str, seed: u64, params: &Value, keep: bool, f: impl FnOnce() -> Built) {
+        *self.builds.entry(gen.to_string()).or_default() += 1;
+        let head = json!({"k": "build", "gen": gen, "be": be, "seed": seed, "params": params});
+        let with = |extra: Value| {
+            let mut e = head.clone();
+            for (k, v) in extra.as_object().unwrap() {
+                e[k.as_str()] = v.clone();
+            }
+            e
+        };
+        match f() {
+            Err(msg) => {
+                self.panics += 1;
+                self.tr.emit(with(json!({"res": "panic", "msg": msg})));
+            }
+            Ok((p1, p2, eq)) => {
+                if !eq {
+                    self.unequal += 1;
+                }
+                if let Some(c) = p1.get("c") {
+                    self.gates += c["gates"].as_array().map(|a| a.len()).unwrap_or(0);
+                }
+                let mut e1 = with(p1);
+                e1["res"] = json!("ok");
+                e1["again_equal"] = json!(eq);
+                e1["keep"] = json!(keep);
+                self.tr.emit(e1);
+                if keep {
+                    self.pairs_logged += 1;
+                    let mut e2 = with(p2);
+                    e2["res"] = json!("ok");
+                    e2["again_equal"] = json!(eq);
+                    e2["keep"] = json!(true);
+                    self.tr.emit(e2);
+                }
+            }
+        }
+    }
+}
+
+fn random_circuit(seed: u64, q: usize, d: usize, p: [u32; 5]) -> Built {
+    guarded(|| {
+        let f = |x: u32| x as f32 / 100.0;
+        let mut b = Circuit::random();
+        b.seed(seed).qubits(q).depth(d).p_cnot(f(p[0])).p_cz(f(p[1])).p_h(f(p[2])).p_s(f(p[3])).p_t(f(p[4]));
+        let c1 = b.build();
+        b.seed(seed);
+        let c2 = b.build();
+        let c3 = Circuit::random().seed(seed).qubits(q).depth(d).p_cnot(f(p[0])).p_cz(f(p[1])).p_h(f(p[2])).p_s(f(p[3])).p_t(f(p[4])).build();
+        let eq = c1 == c2 && c1 == c3;
+        (json!({"c": circ_json(&c1)}), json!({"c": circ_json(&c2)}), eq)
+    })
+}
+
+/// `full`: ask TLC to evaluate the promise also with the full 4^n-entry semantics CircSem (about 10 s for 6 qubits)
+fn hidden_shift(seed: u64, q: usize, cd: usize, nccz: usize, full: bool) -> Built {
+    guarded(|| {
+        let mut b = Circuit::random_hidden_shift();
+        b.seed(seed).qubits(q).clifford_depth(cd).n_ccz(nccz);
+        let (c1, s1) = b.build();
+        b.seed(seed);
+        let (c2, s2) = b.build();
+        let (c3, s3) = Circuit::random_hidden_shift().seed(seed).qubits(q).clifford_depth(cd).n_ccz(nccz).build();
+        let eq = c1 == c2 && s1 == s2 && c1 == c3 && s1 == s3;
+        (json!({"c": circ_json(&c1), "shift": s1, "full": full}), json!({"c": circ_json(&c2), "shift": s2, "full": false}), eq)
+    })
+}
+
+fn pauli_gadget(seed: u64, q: usize, d: usize, lo: usize, hi: usize, den: usize) -> Built {
+    guarded(|| {
+        let mut b = Circuit::random_pauli_gadget();
+        b.seed(seed).qubits(q).depth(d).min_weight(lo).max_weight(hi).phase_denom(den);
+        let c1 = b.build();
+        b.seed(seed);
+        let c2 = b.build();
+        let c3 = Circuit::random_pauli_gadget().seed(seed).qubits(q).depth(d).min_weight(lo).max_weight(hi).phase_denom(den).build();
+        let eq = c1 == c2 && c1 == c3;
+        (json!({"c": circ_json(&c1)}), json!({"c": circ_json(&c2)}), eq)
+    })
+}
+
+fn stab_state<G: quizx::graph::GraphLike>(seed: u64, q: usize) -> Built {
+    guarded(|| {
+        let mut b = EquatorialStabilizerStateBuilder::new();
+        b.seed(seed).qubits(q);
+        let g1: G = b.build();
+        b.seed(seed);
+        let g2: G = b.build();
+        let (a1, a2) = (abs(&g1), abs(&g2));
+        let eq = a1 == a2;
+        let ok = |a: &Value| a["sc"].is_array();
+        (json!({"g": a1, "scok": ok(&a1)}), json!({"g": a2, "scok": ok(&a2)}), eq)
+    })
+}
+
+fn surface_code(d: usize, rounds: usize) -> Built {
+    guarded(|| {
+        let c1 = Circuit::surface_code().distance(d).rounds(rounds).build();
+        let c2 = Circuit::surface_code().distance(d).rounds(rounds).build();
+        let eq = c1 == c2;
+        (json!({"c": circ_json(&c1)}), json!({"c": circ_json(&c2)}), eq)
+    })
+}
+
 pub fn record(args: &[String], seed: u64, tr: &mut Tr) -> Value {
-    json!({"stub": true})
+    let nseeds: u64 = arg_num(args, "--seeds", 3);
+    let thorough = arg_flag(args, "--thorough");
+    let gens = arg_val(args, "--gens").unwrap_or_else(|| "random_circuit,hidden_shift,pauli_gadget,stab_state,surface_code".into());
+    let want = |g: &str| gens.split(',').any(|x| x == g);
+    let base = (seed % 2000) * 1000;
+    let seeds: Vec<u64> = (0..nseeds).map(|i| base + i).collect();
+    let mut cx = Ctx { tr, builds: BTreeMap::new(), panics: 0, unequal: 0, pairs_logged: 0, settings: 0, gates: 0 };
+
+    if want("random_circuit") {
+        // [p_cnot, p_cz, p_h, p_s, p_t] in percent
+        let probs: [[u32; 5]; 9] = [
+            [20, 20, 20, 20, 20],
+            [25, 25, 30, 10, 10],
+            [34, 0, 33, 33, 0],
+            [0, 0, 40, 30, 30],
+            [50, 50, 0, 0, 0],
+            [0, 0, 0, 0, 100],
+            [10, 0, 10, 0, 10],
+            [0, 5, 0, 5, 0],
+            [0, 0, 0, 0, 0],
+        ];
+        for q in 1..=5usize {
+            for d in [0usize, 1, 5, 12] {
+                for p in probs {
+                    let params = json!({"qubits": q, "depth": d, "p_cnot": p[0], "p_cz": p[1], "p_h": p[2], "p_s": p[3], "p_t": p[4]});
+                    cx.begin("random_circuit", &params);
+                    for (i, &s) in seeds.iter().enumerate() {
+                        cx.build("random_circuit", "", s, &params, i == 0, || random_circuit(s, q, d, p));
+                    }
+                }
+            }
+        }
+        // no qubit at all: admissible only without gates
+        for d in [0usize, 2] {
+            let p = [0, 0, 50, 50, 0];
+            let params = json!({"qubits": 0, "depth": d, "p_cnot": p[0], "p_cz": p[1], "p_h": p[2], "p_s": p[3], "p_t": p[4]});
+            cx.begin("random_circuit", &params);
+            cx.build("random_circuit", "", seeds[0], &params, false, || random_circuit(seeds[0], 0, d, p));
+        }
+    }
+
+    if want("hidden_shift") {
+        let sizes: Vec<usize> = if thorough { vec![6, 8] } else { vec![6] };
+        for &q in &sizes {
+            for cd in [0usize, 1, 2, 4] {
+                for nccz in 0..=2usize {
+                    let params = json!({"qubits": q, "clifford_depth": cd, "n_ccz": nccz});
+                    cx.begin("hidden_shift", &params);
+                    for (i, &s) in seeds.iter().enumerate() {
+                        let full = i == 0 && q == 6 && (thorough || cd <= 1);
+                        cx.build("hidden_shift", "", s, &params, i == 0, || hidden_shift(s, q, cd, nccz, full));
+                    }
+                }
+            }
+        }
+        // outside the property's quantifier (odd or < 6): the builder refuses; recorded, nothing demanded
+        for q in [4usize, 5, 7] {
+            let params = json!({"qubits": q, "clifford_depth": 1, "n_ccz": 0});
+            cx.begin("hidden_shift", &params);
+            cx.build("hidden_shift", "", seeds[0], &params, false, || hidden_shift(seeds[0], q, 1, 0, false));
+        }
+    }
+
+    if want("pauli_gadget") {
+        for q in 1..=5usize {
+            // weight ranges with max_weight <= qubits
+            let mut ranges: Vec<(usize, usize)> = vec![(1, 1), (1, q), (q, q)];
+            if q >= 3 {
+                ranges.push((2, 3));
+            }
+            if thorough && q >= 2 {
+                ranges.push((0, 1));
+                ranges.push((q - 1, q));
+            }
+            ranges.sort();
+            ranges.dedup();
+            for (lo, hi) in ranges {
+                for d in [0usize, 1, 3, 6] {
+                    if !thorough && d == 1 && q > 2 {
+                        continue;
+                    }
+                    for den in 2..=8usize {
+                        let params = json!({"qubits": q, "depth": d, "min_weight": lo, "max_weight": hi, "phase_denom": den});
+                        cx.begin("pauli_gadget", &params);
+                        for (i, &s) in seeds.iter().enumerate() {
+                            cx.build("pauli_gadget", "", s, &params, i == 0, || pauli_gadget(s, q, d, lo, hi, den));
+                        }
+                    }
+                }
+            }
+        }
+        // weight larger than the number of qubits: outside the quantifier, the builder refuses
+        let params = json!({"qubits": 2, "depth": 2, "min_weight": 3, "max_weight": 3, "phase_denom": 4});
+        cx.begin("pauli_gadget", &params);
+        cx.build("pauli_gadget", "", seeds[0], &params, false, || pauli_gadget(seeds[0], 2, 2, 3, 3, 4));
+    }
+
+    if want("stab_state") {
+        // the builder has one parameter (qubits); the edge probability 1/2 is fixed in the code
+        for q in 0..=5usize {
+            let params = json!({"qubits": q});
+            cx.begin("stab_state", &params);
+            let n = if q == 0 { 1 } else { seeds.len() * if q >= 3 { 4 } else { 1 } };
+            for i in 0..n {
+                let s = base + i as u64;
+                cx.build("stab_state", "vec", s, &params, i == 0, || stab_state::<quizx::vec_graph::Graph>(s, q));
+                cx.build("stab_state", "hash", s, &params, i == 0, || stab_state::<quizx::hash_graph::Graph>(s, q));
+            }
+        }
+    }
+
+    if want("surface_code") {
+        for d in 1..=3usize {
+            for rounds in 0..=2usize {
+                let params = json!({"distance": d, "rounds": rounds});
+                cx.begin("surface_code", &params);
+                cx.build("surface_code", "", 0, &params, true, || surface_code(d, rounds));
+            }
+        }
+    }
+
+    json!({"settings": cx.settings, "builds": cx.builds, "panics": cx.panics, "harness_unequal": cx.unequal,
+           "pairs_logged_for_tlc": cx.pairs_logged, "gates": cx.gates, "seeds_per_setting": nseeds, "seed_base": base})
 }
